@@ -1245,7 +1245,7 @@ fn c01_unit_ipv6() {
 // @outside labels mixed with pointers (c01_read_name_4/5/8)
 // @stubs fmt_format, utf8_model(+tick), u16_from_be_slice(+tick)
 // @covers ok_chain, err
-// @lift name
+// @lift name:overwrite-even
 #[kani::proof]
 #[kani::unwind(12)]
 #[kani::stub(alloc::fmt::format, crate::verif_support::fmt_format)]
@@ -1253,12 +1253,13 @@ fn c01_unit_ipv6() {
 #[kani::stub(super::u16_from_be_slice, u16_from_be_slice_ticking)]
 fn c01_read_name_ptrs_8() {
     const N: usize = 8;
-    // (constraints are assumptions on the symbolic bytes, not overwrites, so that the concrete
-    // playback values are the buffer itself and can be lifted into a datagram)
-    let bytes: [u8; N] = kani::any();
+    // even bytes are overwritten with a symbolic choice of 0xC0 / 0x00 (cheaper for symbolic
+    // execution than assumptions); lib/replay.py rebuilds the buffer from the playback values
+    // (8 initial bytes, then one bool per even byte, then the offset): `@lift name:overwrite-even`
+    let mut bytes: [u8; N] = kani::any();
     let mut i = 0;
     while i < N {
-        kani::assume(bytes[i] == 0xC0 || bytes[i] == 0x00);
+        bytes[i] = if kani::any() { 0xC0 } else { 0x00 };
         kani::assume(bytes[i + 1] < N as u8 && bytes[i + 1] % 2 == 0);
         i += 2;
     }
